@@ -100,6 +100,7 @@ struct World
 	std::map<std::string, std::string> flags;
 };
 
+static bool g_outhex = false;
 static std::string drain(World& w)
 {
 	std::string out;
@@ -229,11 +230,13 @@ static std::string delivered_json(World& w)
 	return s + "]";
 }
 
+static std::string g_wname("a");
 static void emit(World& w, const char *e, const std::string& pre, const std::string& args, bool ret, const std::string& exc = "")
 {
-	const std::string out(msgs_json(drain(w)));
+	const std::string raw(drain(w));
+	const std::string out(msgs_json(raw));
 	std::string s("{\"e\":\"");
-	s += e; s += "\"";
+	s += e; s += "\",\"w\":\"" + g_wname + "\",\"outhex\":\"" + (g_outhex ? pj::hex(raw) : "") + "\"";
 	if (!args.empty()) s += "," + args;
 	s += ",\"ret\":"; s += ret ? "true" : "false";
 	if (!exc.empty()) s += ",\"exc\":\"" + pj::esc(exc) + "\"";
@@ -343,19 +346,29 @@ int main(int argc, char **argv)
 {
 	pj::install_terminate();
 	GlobalLogger::set_levels(Logger::Levels(Logger::None));
-	World w;
+	std::map<std::string, World> worlds;     // "@b <cmd>" addresses world b; default world is "a"
 	std::string line;
 	while (std::getline(std::cin, line))
 	{
 		auto t = pj::split(line);
 		if (t.empty()) continue;
+		std::string wname("a");
+		if (t[0][0] == '@')
+		{
+			wname = t[0].substr(1);
+			line = line.substr(line.find(t[0]) + t[0].size());
+			line = line.substr(line.find_first_not_of(' ') == std::string::npos ? line.size() : line.find_first_not_of(' '));
+			t.erase(t.begin());
+			if (t.empty()) continue;
+		}
+		World& w(worlds[wname]);
+		g_wname = wname;
 		const std::string& c(t[0]);
 		try
 		{
 			if (c == "reset")
 			{
-				teardown(w, false);
-				w.flags.clear();
+				for (auto& pp : worlds) { teardown(pp.second, false); pp.second.flags.clear(); }
 				pj::Ev("Reset").raw("cfg", line.substr(6)).emit();
 			}
 			else if (c == "clock") { vclock::set(strtoll(t[1].c_str(), 0, 10), t.size() > 2 ? strtoll(t[2].c_str(), 0, 10) : 0); }
@@ -429,6 +442,18 @@ int main(int argc, char **argv)
 				teardown(w, true);
 				build_session(w, false);
 				emit(w, "Restart", pre, "", true);
+			}
+			else if (c == "outhex") { g_outhex = t[1] == "on"; }
+			else if (c == "reconnect")   // same session object, new connection (what ReliableClientSession does)
+			{
+				const std::string pre(state_json(w));
+				try { w.ses->stop(); } catch (...) {}
+				delete w.ses->conn();
+				if (w.sock) { delete w.sock; w.sock = nullptr; }
+				if (w.peerfd >= 0) { close(w.peerfd); w.peerfd = -1; }
+				const unsigned a(t.size() > 1 ? strtoul(t[1].c_str(), 0, 10) : 0), b(t.size() > 2 ? strtoul(t[2].c_str(), 0, 10) : 0);
+				const int r(connect_session(w, a, b));
+				emit(w, "Start", pre, "\"cfg_send\":" + std::to_string(a) + ",\"cfg_recv\":" + std::to_string(b) + ",\"reconnect\":true", r == 0);
 			}
 			else if (c == "drop")      // connection lost: stop the session's connection, keep the session object
 			{
